@@ -112,6 +112,7 @@ func cmdEvict(args []string) {
 	seed := fs.Int64("seed", 1, "seed")
 	n := fs.Int("n", 4, "histories per policy")
 	length := fs.Int("len", 25, "steps per history")
+	only := fs.String("policies", "", "comma-separated subset of the policies (default: all)")
 	_ = fs.Parse(args)
 	quiet()
 	tr, err := NewTrace(*out)
@@ -122,7 +123,11 @@ func cmdEvict(args []string) {
 	tot := map[string]int{}
 	var samples []any
 	run := 0
-	for _, pol := range evictPolicies {
+	policies := evictPolicies
+	if *only != "" {
+		policies = strings.Split(*only, ",")
+	}
+	for _, pol := range policies {
 		for h := 0; h < *n; h++ {
 			runEvictHistory(tr, run, pol, r, *length, tot, &samples)
 			_ = tr.w.Flush()
